@@ -937,7 +937,10 @@ class TestClientRecorder(BaseOperationRecorder):
                             http_response.headers[hdr_name]
             tc_http_response['headers'] = tc_response_headers
             if http_response.payload is not None:
-                data = http_response.payload.decode('utf-8')
+                # The response comes from the server and is not necessarily
+                # valid UTF-8; recording it must not change the exception
+                # the operation raises for that.
+                data = http_response.payload.decode('utf-8', errors='replace')
                 data = data.replace('><', '>\n<').strip()
             else:
                 data = None
